@@ -149,6 +149,11 @@ func PolygonFromOrientedLoops(loops []*Loop) *Polygon {
 	}
 
 	for _, l := range loops {
+		// The empty and full loops have no boundary whose orientation could
+		// be normalized (inverting the full loop would yield the empty one).
+		if l.isEmptyOrFull() {
+			continue
+		}
 		angle := l.TurningAngle()
 		if math.Abs(angle) > l.turningAngleMaxError() {
 			// Normalize the loop.
